@@ -92,6 +92,30 @@ Theorem C14_refused : forall (sigT : Type) (recover : Z -> Z -> sigT -> option Z
 Proof. exact refused. Qed.
 Print Assumptions C14_refused.
 
+(* vesting sources: accepted => the source holds nothing afterwards (locked coins included: `bal_of` is the whole
+   bank balance) and nothing it held was locked; while any held denomination has a locked part the migration
+   is refused (SendCoins of the whole balance fails) *)
+Theorem C14_source_emptied : forall (sigT : Type) (recover : Z -> Z -> sigT -> option Z) s from to sg s',
+  wf s -> migrate_tx sigT recover s from to sg = Ok s' ->
+  (forall d, bal_of s' from d = 0) /\
+  (forall d x, sget k2_eqb (from, d) (bal s) = Some x -> locked_of s from d <= 0).
+Proof. exact source_emptied. Qed.
+Print Assumptions C14_source_emptied.
+
+Theorem C14_locked_refused : forall (sigT : Type) (recover : Z -> Z -> sigT -> option Z) s from to sg d x,
+  sget k2_eqb (from, d) (bal s) = Some x -> 0 < locked_of s from d ->
+  forall s', migrate_tx sigT recover s from to sg <> Ok s'.
+Proof. exact locked_refused. Qed.
+Print Assumptions C14_locked_refused.
+
+Theorem C14_locked_nonvacuous :
+  wf ex_vesting /\ bal_of ex_vesting 2 0 = 5000 /\ locked_of ex_vesting 2 0 = 2000 /\
+  migrate_tx unit sig_any ex_vesting 2 6 (Some tt) = Err EFunds /\
+  (exists s', migrate_tx unit sig_any ex_vesting 1 5 (Some tt) = Ok s') /\
+  (exists s', migrate_tx unit sig_any ex_init 2 6 (Some tt) = Ok s' /\ bal_of s' 2 0 = 0 /\ bal_of s' 6 0 = 5000).
+Proof. exact locked_example. Qed.
+Print Assumptions C14_locked_nonvacuous.
+
 (* once: whatever happens afterwards, no second migration involves either address *)
 Theorem C14_once : forall (sigT : Type) (recover : Z -> Z -> sigT -> option Z) s from to sg s',
   migrate_tx sigT recover s from to sg = Ok s' ->
